@@ -100,6 +100,9 @@ def pool(draw):
         if draw(st.integers(0, 2)) == 0:
             # shared include file that itself includes a definitions file only reachable through the include directory option
             lines = ['include lib.asm'] + lines + ['li x7, CHIP_BASE']
+        if draw(st.integers(0, 2)) == 0:
+            # a file of the same name sits next to the programs of BOTH source directories, with different contents
+            lines = ['include local.asm'] + lines + ['li x8, LOCAL_K', 'addi x8, x8, LOCAL_K']
         progs.append('\n'.join(lines) + '\n')
     return progs
 
@@ -118,6 +121,7 @@ class History(RuleBasedStateMachine):
         self.pool = []
         self.returned = []    # (labels dict, constants dict, snapshot of both) handed back by earlier calls
         self.reusable = []    # (program, incdirs, labels, constants) of successful fresh-dict calls that nobody scribbled into
+        self.ops = []         # everything that was done, in order (this is what a replay re-executes)
         self.calls = []
         self.distinct = set()
         self.fail_before_success = False
@@ -130,29 +134,51 @@ class History(RuleBasedStateMachine):
 
     def setup_files(self, progs):
         import tempfile
-        self.pool = progs
+        self.pool = list(progs)
+        self.original = list(progs)
         self.dir = tempfile.mkdtemp(prefix='bbv-c16-', dir=env.TMP)
-        os.makedirs(os.path.join(self.dir, 'src'))
         os.makedirs(os.path.join(self.dir, 'defs'))
-        with open(os.path.join(self.dir, 'src', 'lib.asm'), 'w') as f:
-            f.write(LIB_ASM)
         with open(os.path.join(self.dir, 'defs', 'chip.asm'), 'w') as f:
             f.write(CHIP_ASM)
+        # two source directories (programs alternate between them); each has its own lib.asm copy and its own local.asm
+        for k, sub in enumerate(('src', 'src2')):
+            os.makedirs(os.path.join(self.dir, sub))
+            with open(os.path.join(self.dir, sub, 'lib.asm'), 'w') as f:
+                f.write(LIB_ASM)
+            with open(os.path.join(self.dir, sub, 'local.asm'), 'w') as f:
+                f.write('LOCAL_K = %d\n' % (5 if k == 0 else 1234))
         self.paths = []
         for i, text in enumerate(progs):
-            p = os.path.join(self.dir, 'src', 'p%d.asm' % i)
+            p = os.path.join(self.dir, ('src', 'src2')[i % 2], 'p%d.asm' % i)
             with open(p, 'w', encoding='utf-8') as f:
                 f.write(text)
             self.paths.append(p)
+        # ONE include-directory list object, handed to every call that uses the option (the way a build script would)
+        self.shared_incdirs = [os.path.join(self.dir, 'defs')]
+
+    def _dict_index(self, d):
+        for n, r in enumerate(self.returned):
+            if r[0] is d:
+                return n
+        return None
 
     def _call(self, i, compress, mode, incdirs=False, reuse_from=None):
+        self.ops.append(['call', i % len(self.pool), compress, mode, incdirs, self._dict_index(reuse_from[0]) if reuse_from else None])
         text = self.pool[i % len(self.pool)]
         src = self.paths[i % len(self.pool)]
-        include_dirs = [os.path.join(self.dir, 'defs')] if incdirs else None
+        include_dirs = self.shared_incdirs if incdirs else None
+        ref_dirs = [os.path.join(self.dir, 'defs')] if incdirs else None
         if mode == 'none':
             lin, cin = None, None
         elif mode == 'fresh':
             lin, cin = {}, {}
+        elif mode == 'foreign':
+            # the LABELS dictionary filled by an earlier call of ANOTHER program (and a fresh constants dictionary), handed to a
+            # program that is self-contained (it assembles with empty dictionaries): a left-over label is overwritten when the
+            # program defines that label, shadowed when the program has a constant of that name and unused otherwise, so neither
+            # the bytes nor the values of the program's own names may change.  (Left-over CONSTANTS are different: a constant
+            # shadows a same-named label of the program, so they are legitimate inputs and are not reused across programs.)
+            lin, cin = reuse_from[0], {}
         elif mode == 'reuse':
             # the very dictionaries an earlier successful call of the SAME program filled (a build loop that keeps one
             # labels / constants dict): every name in them is defined by the program itself, so the result must be the one
@@ -160,10 +186,10 @@ class History(RuleBasedStateMachine):
             lin, cin = reuse_from
         else:
             lin, cin = {'test': 0, 'near': 0, 'far': 0x20000000}, {'PRESET': 7}
-        if mode == 'reuse':
-            ref = fresh(src, compress, {}, {}, include_dirs, text)
+        if mode in ('reuse', 'foreign'):
+            ref = fresh(src, compress, {}, {}, ref_dirs, text)
         else:
-            ref = fresh(src, compress, copy.deepcopy(lin), copy.deepcopy(cin), include_dirs, text)
+            ref = fresh(src, compress, copy.deepcopy(lin), copy.deepcopy(cin), ref_dirs, text)
         kw = {'compress': compress}
         if include_dirs is not None:
             kw['include_dirs'] = include_dirs
@@ -177,8 +203,12 @@ class History(RuleBasedStateMachine):
             got = {'ok': False, 'type': 'AssemblerError', 'message': e.message, 'line': getattr(e.line, 'number', None)}
         except Exception as e:
             got = {'ok': False, 'type': type(e).__name__, 'message': str(e), 'line': None}
+        if mode in ('reuse', 'foreign'):
+            for r in self.returned:
+                if r[0] is lin or r[1] is cin:
+                    r[2], r[3] = copy.deepcopy(r[0]), copy.deepcopy(r[1])   # the caller handed them in again: changes are expected
         key = (i % len(self.pool), compress, mode, incdirs)
-        if mode == 'reuse':
+        if mode in ('reuse', 'foreign'):
             self.count_reuse = getattr(self, 'count_reuse', 0) + 1
         if key in [c[0] for c in self.calls]:
             self.repeated = True
@@ -188,16 +218,19 @@ class History(RuleBasedStateMachine):
             self.seen_failure = True
         elif self.seen_failure:
             self.fail_before_success = True
+        if mode == 'foreign' and ref['ok'] and got['ok']:
+            got = {'ok': True, 'bytes': got['bytes'], 'labels': {k: v for k, v in got['labels'].items() if k in ref['labels']},
+                   'constants': {k: v for k, v in got['constants'].items() if k in ref['constants']}}
+        if mode == 'foreign' and not ref['ok']:
+            return   # not self-contained: leftovers are legitimate inputs then
         if got != ref:
             hist = [(k, ok) for k, ok in self.calls]
             raise env.CaseFailure('history:%s' % ('result' if got['ok'] and ref['ok'] else 'outcome'),
                                   'call %r after history %r gives\n  %s\nbut a fresh interpreter gives\n  %s\n--- source\n%s' % (
                                       key, hist[:-1][-8:], json.dumps(got)[:400], json.dumps(ref)[:400], text[:500]),
-                                  {'kind': 'history', 'pool': self.pool, 'calls': [list(k) for k, _ in self.calls]})
-        if mode == 'reuse':
-            for r in self.returned:
-                if r[0] is lin:
-                    r[2], r[3] = copy.deepcopy(lin), copy.deepcopy(cin)   # the caller handed them in again: changes are expected
+                                  {'kind': 'history', 'pool': self.original, 'ops': self.ops})
+        if mode in ('reuse', 'foreign'):
+            pass
         elif lin is not None:
             self.returned.append([lin, cin, copy.deepcopy(lin), copy.deepcopy(cin)])
             if mode == 'fresh' and got['ok']:
@@ -211,7 +244,7 @@ class History(RuleBasedStateMachine):
     @rule(k=st.integers(0, 50))
     def reassemble_earlier(self, k):
         key = self.calls[k % len(self.calls)][0]
-        if key[2] == 'reuse':
+        if key[2] in ('reuse', 'foreign'):
             key = (key[0], key[1], 'fresh', key[3])
         self._call(*key)
 
@@ -221,10 +254,33 @@ class History(RuleBasedStateMachine):
         i, incdirs, lin, cin = self.reusable[k % len(self.reusable)]
         self._call(i, compress, 'reuse', incdirs, reuse_from=(lin, cin))
 
+    @precondition(lambda self: len(self.reusable) > 0)
+    @rule(k=st.integers(0, 50), i=st.integers(0, 5), compress=st.booleans())
+    def assemble_with_dicts_left_over_from_another_program(self, k, i, compress):
+        j, incdirs, lin, cin = self.reusable[k % len(self.reusable)]
+        if i % len(self.pool) == j:
+            return
+        self.reusable = [x for x in self.reusable if x[2] is not lin]   # they now hold a mixture: no longer 'same program' dicts
+        self._call(i, compress, 'foreign', incdirs, reuse_from=(lin, cin))
+
+    @rule(i=st.integers(0, 5), j=st.integers(0, 5))
+    def rewrite_a_source_file(self, i, j):
+        # the file at path i now holds the text of program j (an edit between two builds in one process)
+        i, j = i % len(self.pool), j % len(self.pool)
+        if i == j or i % 2 != j % 2:
+            return    # keep programs in their own source directory (they may include the directory's local.asm)
+        self.ops.append(['rewrite', i, j])
+        self.pool[i] = self.original[j]
+        with open(self.paths[i], 'w', encoding='utf-8') as f:
+            f.write(self.pool[i])
+        self.reusable = [x for x in self.reusable if x[0] != i]
+        self.rewrites = getattr(self, 'rewrites', 0) + 1
+
     @precondition(lambda self: len(self.returned) > 0)
     @rule(k=st.integers(0, 50), name=st.sampled_from(S.LABEL_NAMES[:8] + S.CONST_NAMES[:8]), v=st.integers(-5, 5000))
     def scribble(self, k, name, v):
         r = self.returned[k % len(self.returned)]
+        self.ops.append(['scribble', k % len(self.returned), name, v])
         self.reusable = [x for x in self.reusable if x[2] is not r[0]]
         r[0][name] = v
         r[1][name] = v + 1
@@ -235,13 +291,13 @@ class History(RuleBasedStateMachine):
         for lin, cin, ls, cs in self.returned:
             if lin != ls or cin != cs:
                 raise env.CaseFailure('history:aliasing', 'a dictionary handed back by an earlier call was changed by a later call: %r -> %r' % (ls, lin),
-                                      {'kind': 'history', 'pool': self.pool, 'calls': [list(k) for k, _ in self.calls]})
+                                      {'kind': 'history', 'pool': self.original, 'ops': self.ops})
 
     @invariant()
     def module_tables_unchanged(self):
         if tables_snapshot(self.a) != self.tables:
             raise env.CaseFailure('history:tables', 'module level tables (REGISTERS / INSTRUCTIONS / KEYWORDS ...) changed during the history',
-                                  {'kind': 'history', 'pool': self.pool, 'calls': [list(k) for k, _ in self.calls]})
+                                  {'kind': 'history', 'pool': self.original, 'ops': self.ops})
 
     def teardown(self):
         import shutil
@@ -253,6 +309,7 @@ class History(RuleBasedStateMachine):
             if len(self.distinct) >= 2 and self.fail_before_success and self.repeated:
                 _stats.nt(env.chash((self.pool, self.calls)))
             _stats.count('calls_reusing_dicts', getattr(self, 'count_reuse', 0))
+            _stats.count('source_file_rewrites', getattr(self, 'rewrites', 0))
             if _stats.evaluations % 13 == 1:
                 _stats.sample({'calls': [list(k) + [ok] for k, ok in self.calls[:12]], 'first_program': self.pool[0][:200] if self.pool else None})
 
@@ -369,14 +426,25 @@ def replay(path):
     m.setup_files(c['pool'])
     try:
         try:
-            for key in c['calls']:
-                if key[2] == 'reuse':
-                    cand = [x for x in m.reusable if x[0] == key[0] and x[1] == key[3]]
-                    if not cand:
+            for op in c['ops']:
+                if op[0] == 'call':
+                    _, i, compress, mode, incdirs, di = op
+                    rf = (m.returned[di][0], m.returned[di][1]) if di is not None and di < len(m.returned) else None
+                    if mode in ('reuse', 'foreign') and rf is None:
                         continue
-                    m._call(key[0], key[1], 'reuse', key[3], reuse_from=(cand[-1][2], cand[-1][3]))
+                    m.ops = []
+                    m._call(i, compress, mode, incdirs, reuse_from=rf)
+                elif op[0] == 'rewrite':
+                    _, i, j = op
+                    m.pool[i] = m.original[j]
+                    with open(m.paths[i], 'w', encoding='utf-8') as f:
+                        f.write(m.pool[i])
                 else:
-                    m._call(*key)
+                    _, k, name, v = op
+                    r = m.returned[k]
+                    r[0][name] = v
+                    r[1][name] = v + 1
+                    r[2], r[3] = copy.deepcopy(r[0]), copy.deepcopy(r[1])
                 m.earlier_results_untouched()
                 m.module_tables_unchanged()
         finally:
